@@ -1,5 +1,7 @@
 #!/bin/sh
-# offline setup: build the Lean library and the model driver (nothing is fetched)
+# offline setup: build the Lean library (all claimed property modules) and the model drivers
 set -e
 cd "$(dirname "$0")/lean"
-lake build MythVerif drv_tls
+python3 ../translate/consts_extract.py >/dev/null 2>&1 || true
+python3 ../translate/asm_extract.py >/dev/null 2>&1 || true
+lake build MythVerif drv_tls drv_mutex drv_cond drv_join drv_alloc drv_bulk drv_x86
